@@ -35,6 +35,11 @@ CFG = {
         "takes effect after the releasing one, so the case lists them in that order and the ordinary sequential model / monitor judge them (lemmas p_held_*; no new model behaviour). This runs the cond.Wait branches of all pops, SyncQueue.Pop's wait and the retry branch of every Anyway add; "
         "it is NOT C13's class (one waiter, one releaser, no choice of who wakes). IsClosed / IsCleared answering true is additionally required to mean that WaitClose / WaitClear return nil at once (mux.Q, mq.MQ); Wait* on an open queue would block and is left to C13; "
         "IsClosed / IsCleared answering false is required to mean that WaitClose / WaitClear with an already cancelled context return context.Canceled; async.Q.Size must equal the configured size and PriQueue.WaitCh must be non-nil at construction (token protocol: C13); the six `return nil, ErrSync` statements are unreachable. "
+        "Class 'backlog' (C12_Runs.v): for every queue type and every add kind (ordinary, prior, Anyway; control and request level; Push) a backlog of exactly b items, b in {0,1,2,7,8,9,15,16,17,31,32,33,63,64,65,127,128,129,255,256,257,1023,1024,1025}, "
+        "built after h in {0,1,3,b/2} items have come and gone (both 'h first' and 'b+h then pop h'), then the add under test (sometimes one more of the other kind, sometimes Close, sometimes at the last slot the bound lets in), then a full drain; plus a shrink path (fill to 1025, drain to 1, refill with prior adds at 14/16/31...). "
+        "Quick runs the three largest backlogs with h = 3 only. These histories are emitted run-length encoded (((op, result), n) = n consecutive steps with consecutive items) and judged by EXPANDING them and applying the ordinary accept / holds, so soundness is the sequential simulation theorem; p_backlog_prior / p_backlog_add state the order for every backlog. "
+        "A held add-anyway released by Close is, when the next call is a PopAnyway, joined only after that pop (asleep across Close and the freed slot: it must still be refused). "
+        "Watchdog: 30 s; after a first call of the run has really not returned (the run is then a violation anyway) later waits are cut to 2 s. A history also stops when a pop hands out something that was not pending. "
         "Boundary item values: a quarter of the random histories of the pipe queues and mq.MQ queue nil, a typed nil pointer, the empty string, int(0) and struct{}{} (written -1..-5) like any other item - the unchanged code stores and returns them unchanged; "
         "SyncQueue gets the non-nil ones only and PriQueue none, because their API answers nil for 'closed' / 'empty' (SyncQueue.Pop / TryPop, PriQueue.Pop), so an untyped nil item is indistinguishable there by the API's own definition (and a nil IEntry panics in Less). "
         "Trusted: Coq kernel + vm_compute; the hand models (C12_Pipe.v, C12_MQ.v, C12_Sync.v, C12_Pri.v) tied by the differential check; container/list, "
